@@ -433,7 +433,9 @@ impl Decoded {
             "total": self.dict.source_total_size,
             "src_sum": hex(&self.dict.source_checksum),
             "has_params": p.is_some(),
-            "params": p.map(|p| json!({"bits": p.filter_bits, "min": p.min, "max": p.max, "window": p.window, "hash_len": p.hash_len, "alg": p.algorithm})).unwrap_or(json!({})),
+            "params": p.map(|p| { let c = |v: u32| -> i64 { if v > i32::MAX as u32 { i32::MAX as i64 } else { v as i64 } };
+                json!({"bits": c(p.filter_bits), "min": c(p.min), "max": c(p.max), "window": c(p.window), "hash_len": c(p.hash_len), "alg": c(p.algorithm),
+                       "min_s": format!("{}", p.min), "max_s": format!("{}", p.max), "window_s": format!("{}", p.window)}) }).unwrap_or(json!({})),
             "has_compression": self.dict.compression.is_some(),
             "compression": self.dict.compression.map(|c| json!({"type": c.0, "level": c.1})).unwrap_or(json!({})),
             "order": self.dict.rebuild_order,
